@@ -215,6 +215,13 @@ func nestedTemplates() []tmpl {
 		tSeq("list", tSplice("emp")),
 		tSeq("hashform", tAtom([]any{"sym", "k"}), tUnq("x")),
 		tSeq("list", tSeq("arr", tSplice("one"), tSeq("list", tUnq("s"), tSplice("lst")))),
+		// a template inside a template, a quote inside a template: unquotes are substituted at any depth,
+		// whatever symbol heads the list they stand in
+		tSeq("list", tAtom([]any{"sym", "syntaxQuote"}), tSeq("list", tAtom([]any{"sym", "b"}), tUnq("x"))),
+		tSeq("list", tAtom([]any{"sym", "syntaxQuote"}), tUnq("x")),
+		tSeq("list", tAtom([]any{"sym", "quote"}), tUnq("s")),
+		tSeq("list", tAtom([]any{"sym", "syntaxQuote"}), tSeq("arr", tSplice("lst"), tSeq("list", tAtom([]any{"sym", "quote"}), tUnq("x")))),
+		tSeq("list", tAtom([]any{"sym", "defmac"}), tUnq("s"), tSeq("arr"), tSeq("list", tAtom([]any{"sym", "syntaxQuote"}), tSeq("list", tAtom([]any{"sym", "quote"}), tUnq("x")))),
 	}
 }
 
